@@ -151,7 +151,8 @@ def decide(prop, tier, seed, scratch, repo, need_witness_for=()):
             obligations.append(rec)
         # counterexamples for failed harnesses
         for full, g, h, errs in failed:
-            w = playback(crate, full, h, tmo, feats)
+            # a listed known finding already carries its witness in known_findings.json: no concrete playback needed
+            w = None if h["name"] in known_harnesses() else playback(crate, full, h, tmo, feats)
             viol = {"obligation": f"kani::{h['name']}{suffix}", "unit": None, "harness": h["name"], "function": h["name"], "backend": "kani+cbmc",
                     "hint_only": False, "errors": errs, "witness": w}
             info["witnesses"][h["name"] + suffix] = {"witness": w, "units": h.get("witness_units", [])}
@@ -159,6 +160,14 @@ def decide(prop, tier, seed, scratch, repo, need_witness_for=()):
                 continue  # only used to arbitrate / illustrate Verus failures
             violations.append(viol)
     return obligations, violations, undecided, info
+
+
+def known_harnesses():
+    try:
+        kf = json.load(open(os.path.join(VERIF, "known_findings.json")))
+    except Exception:
+        return set()
+    return set(f["harness"] for f in kf.get("findings", []) if f.get("harness"))
 
 
 def playback(crate, full, h, tmo, feats=()):
